@@ -57,7 +57,7 @@ def unary_over_unary(tier):
 
 def power_patterns(tier):
     out = []
-    exps = [1, 0, -1, 2, 3, 2.0, 2.5, -2, 0.5, ["sym", "c1"]]
+    exps = [1, 0, -1, 2, 3, 2.0, 2.5, 3.5, -2, -3, 0.5, ["sym", "c1"]]
     basesc = [1, 2, 0.5, 0, -1, 2.718281828459045, ["sym", "c1"]]
     for c in exps:
         out.append(["Power", X, const(c)])
